@@ -121,6 +121,8 @@ structure Flight where
 
 inductive Pc where
   | init
+  /-- cache miss on arrival; about to enter `sf.Do` -/
+  | missed
   | leading (f : Nat)
   | waiting (f : Nat)
   | done
@@ -144,6 +146,9 @@ structure St where
   outs : List (Nat × Outcome)
   /-- upstream resolutions started: (flight, question sent) -/
   calls : List (Nat × Question)
+  /-- number of flights that went to the upstream (the others were answered from the cache by the
+  leader's own re-check inside the flight) -/
+  activated : Nat
   deriving Repr
 
 def lookup {β} (l : List (Key × β)) (k : Key) : Option β := (l.find? (fun p => p.1 == k)).map (·.2)
@@ -152,7 +157,7 @@ def insert {β} (l : List (Key × β)) (k : Key) (v : β) : List (Key × β) := 
 
 def init (clients : List Client) : St :=
   { clients := clients, pcs := clients.map fun _ => Pc.init, cache := [], active := [], flights := [],
-    outs := [], calls := [] }
+    outs := [], calls := [], activated := 0 }
 
 /-- `forwardWithFallback`: primary attempt, and for `tcp+udp` a TCP attempt when UDP failed or
 answered with TC=1 (`DoUDP.ForwardDNS` returns `ErrDNSTruncated`). -/
@@ -220,8 +225,12 @@ def St.setPc (s : St) (i : Nat) (p : Pc) : St := { s with pcs := s.pcs.set i p }
 def St.emit (s : St) (i : Nat) (o : Outcome) : St := { s with outs := s.outs ++ [(i, o)] }
 
 inductive Act where
-  /-- client `i` enters `HandleWithResponseWriter_` and runs up to the cache answer or `sf.Do` -/
+  /-- client `i` enters `HandleWithResponseWriter_`: limiter, routing, first cache lookup -/
   | arrive (i : Nat)
+  /-- client `i` (cache miss) enters `sf.Do`: follower of the running flight for its key, or leader of a
+  new one — and the leader's `handleWithResponseWriter_` looks into the cache once more before it
+  goes to the upstream -/
+  | join (i : Nat)
   /-- the concurrency limiter is full when client `i` enters -/
   | refuse (i : Nat)
   /-- the leader of flight `f` finishes its upstream exchange with the given transport outcomes -/
@@ -230,6 +239,9 @@ inductive Act where
   | wake (i : Nat)
   /-- janitor / LRU / reject-route family removal drops a cache entry -/
   | evict (k : Key)
+  /-- optimistic cache: `backgroundRefresh` started for a stale entry served to client `i` finishes its
+  upstream exchange (`dialSend` with `needResp = false`): only the cache can change -/
+  | refresh (i : Nat) (sch : Scheme) (a1 a2 : Att)
   deriving DecidableEq, Repr
 
 def step (cfg : Cfg) (s : St) : Act → St
@@ -248,13 +260,23 @@ def step (cfg : Cfg) (s : St) : Act → St
       | .forward =>
         match lookup s.cache c.key with
         | some e => (s.emit i (.wrote (cachedReply c e))).setPc i .done
+        | none => s.setPc i .missed
+    | _, _ => s
+  | .join i =>
+    match s.clients[i]?, s.pcs[i]? with
+    | some c, some .missed =>
+      match lookup s.active c.key with
+      | some f => s.setPc i (.waiting f)
+      | none =>
+        let f := s.flights.length
+        match lookup s.cache c.key with
+        | some e =>
+          -- the cache was filled between the first lookup and `sf.Do`: `writeCachedResponse` into the
+          -- capturing writer, no upstream exchange; the flight is over before anybody can join it
+          { s with flights := s.flights ++ [Flight.mk c.key i (some (.ok ⟨c.id, some e.q, true, 0, false, e.ans⟩))] }.setPc i (.waiting f)
         | none =>
-          match lookup s.active c.key with
-          | some f => s.setPc i (.waiting f)
-          | none =>
-            let f := s.flights.length
-            { s with flights := s.flights ++ [Flight.mk c.key i none], active := insert s.active c.key f,
-                     calls := s.calls ++ [(f, c.q)] }.setPc i (.leading f)
+          { s with flights := s.flights ++ [Flight.mk c.key i none], active := insert s.active c.key f,
+                   calls := s.calls ++ [(f, c.q)], activated := s.activated + 1 }.setPc i (.leading f)
     | _, _ => s
   | .resolve f sch a1 a2 =>
     match s.flights[f]? with
@@ -283,6 +305,10 @@ def step (cfg : Cfg) (s : St) : Act → St
       | none => s
     | _, _ => s
   | .evict k => { s with cache := erase s.cache k }
+  | .refresh i sch a1 a2 =>
+    match s.clients[i]? with
+    | some c => { s with cache := (dialSend cfg c sch a1 a2 s.cache).2 }
+    | none => s
 
 def run (cfg : Cfg) (s : St) (as : List Act) : St := as.foldl (step cfg) s
 
